@@ -54,6 +54,36 @@ PY
     echo "HARNESS-ERROR: race pass exited with $rrc" >&2; tail -20 "$ovl/race.log" >&2; exit 2
   fi
 fi
+if [ "$id" = "C18" ] && [ "$mode" != "replay" ]; then
+  # second supporting pass: the same bodies free-running in the DEFAULT build (assembly kernels are invisible to
+  # the race detector and to the cooperative scheduler); every result is compared with the sequential one.
+  sbin="$here/bin/stress.$$"
+  if ! (cd "$here/mc" && go build $mf -tags verif -overlay "$ovl/overlay.json" -o "$sbin" . ) 2> "$bin.err"; then
+    echo "HARNESS-ERROR: default-tags build failed" >&2; cat "$bin.err" >&2; rm -f "$bin.err" "$sbin"; exit 2
+  fi
+  timeout 900 "$sbin" stresspass > "$ovl/stress.log" 2>&1; src=$?
+  rm -f "$sbin" "$bin.err"
+  python3 - "$ovl/race.json" "$ovl/stress.log" "$src" <<'PY'
+import json,sys,re
+d=json.load(open(sys.argv[1]))
+log=open(sys.argv[2]).read()
+m=re.search(r"stresspass: completed (\d+) scenarios x (\d+) rounds x (\d+) copies x (\d+) iterations, default build; mismatches: (\d+)", log)
+d["stress_pass"]={"build":"-tags verif (default: assembly kernels)","gomaxprocs":16,"exit":int(sys.argv[3]),
+  "scenarios":int(m.group(1)) if m else 0,"rounds":int(m.group(2)) if m else 0,"copies":int(m.group(3)) if m else 0,"iterations":int(m.group(4)) if m else 0,
+  "mismatches":int(m.group(5)) if m else log.count("STRESS-MISMATCH")}
+json.dump(d,open(sys.argv[1],"w"))
+PY
+  if [ $src -eq 4 ] || [ $src -eq 3 ]; then
+    mkdir -p "$here/replays"; cp "$ovl/stress.log" "$here/replays/C18-stress.log"
+    echo "VIOLATION property=C18 replay=$here/replays/C18-stress.log"
+    echo "  concurrent executions in the default (assembly) build differ from the sequential results:"; grep 'STRESS-MISMATCH\|NON-TERMINATION' "$ovl/stress.log" | head -5
+    racefail=1
+  elif [ $src -eq 124 ]; then
+    echo "NOTE: free-running stress pass did not complete within its time limit (inconclusive, not counted)"
+  elif [ $src -ne 0 ]; then
+    echo "HARNESS-ERROR: stress pass exited with $src" >&2; tail -20 "$ovl/stress.log" >&2; exit 2
+  fi
+fi
 trc=${racefail:-0}
 if [ "$id" = "C07" ] && [ "$mode" != "replay" ]; then
   export VERIF_EXTRA_EVIDENCE="$ovl/transcripts.json"
